@@ -188,8 +188,13 @@ fn generate_global_branch(
                     cachelito_core::InvalidationRegistry::global().register_callback(
                         #fn_name_str,
                         move || {
+                            // Clear the map and the order queue as one step with respect to
+                            // stores (which update the queue under this lock): emptying them
+                            // in two separate critical sections lets a concurrent store end
+                            // up in the map but not in the queue, i.e. outside `limit`.
+                            let mut order = #order_ident.lock();
                             #cache_ident.write().clear();
-                            #order_ident.lock().clear();
+                            order.clear();
                         }
                     );
                 });
